@@ -246,6 +246,7 @@ def type_tables(ctx):
                     # the same record under its canonical spelling (no local alias for the element)
                     for k_ in ('Flags', 'Flag', 'EvTmr', 'InTmr'):
                         inputs['pdo[num].' + k_] = inputs['wp->' + k_]
+                        inputs['pdo[1].' + k_] = inputs['wp->' + k_]       # ... and with the bound index folded (num = 1)
                     trs = _run(m, f, inputs, filt=lambda k, fld: fld in (('CO_TPDO', 'Flags'), ('CO_RPDO', 'Flag'), ('CO_TPDO', 'Event'), ('CO_TPDO', 'Inhibit')))
                     site = '%s type=%d valid=%d previously-synchronous=%d' % (f, ty, valid, old_sync)
                     bad = None
@@ -594,6 +595,8 @@ def sync_registration(ctx):
                     return c is None or (c & bit) != 0
                 return False
 
+            busy = set()
+
             def tr(node, st):
                 if node.x is None:
                     return st
@@ -604,6 +607,18 @@ def sync_registration(ctx):
                             st = True
                         elif nm == 'COSyncAdd':
                             st = False
+                        elif nm is not None and m.is_new_helper(nm) and nm not in busy:
+                            # a helper extracted from the function (`Detach`: flag test + COSyncRemove): its effect is what its
+                            # own body establishes on every path
+                            busy.add(nm)
+                            try:
+                                g2 = m.cfg(nm)
+                                IN2, OUT2 = flow.forward(g2, st, tr, lambda a, b: a and b, edge=edge)
+                                r2 = IN2.get(g2.exit.id)
+                                if r2 is not None:
+                                    st = r2
+                            finally:
+                                busy.discard(nm)
                 for (l, rhs, n) in m.field_stores(node.x, fld):
                     if n.k == 'bin' and n.op == '=' and const_eval(n.kids[1], m) is not None and (const_eval(n.kids[1], m) & bit) == 0:
                         st = True
